@@ -46,11 +46,13 @@ Definition sdur (d : dstrat) : option lin :=
   end.
 
 (* decidable sufficient condition for "l >= 0 under every admissible setting": admissible settings have R, M, F, S >= 0,
-   W >= 0 and the one non-linear fact 2W + M >= R.  l is accepted iff l - k (2W + M - R) has only non-negative coefficients
-   for k = max 0 (- cR l), the least multiplier that repairs the R coefficient. *)
+   W >= 0 and the two linear consequences of W = max 0 ((R - M) / 2):  g1 = 2W + M - R >= 0  and  g2 = R - 2W >= 0.
+   l is accepted iff l - k1 g1 - k2 g2 has only non-negative coefficients for k1 = max 0 (- cR l), k2 = max 0 (cR l):
+   the multipliers that cancel the R coefficient (any other choice of k1, k2 >= 0 only tightens the remaining conditions). *)
 Definition lin_nonneg (l : lin) : bool :=
-  let k := Z.max 0 (- cR l) in
-  (0 <=? cM l - k) && (0 <=? cF l) && (0 <=? cS l) && (0 <=? cW l - 2 * k) && (0 <=? c0 l).
+  let k1 := Z.max 0 (- cR l) in
+  let k2 := Z.max 0 (cR l) in
+  (0 <=? cM l - k1) && (0 <=? cF l) && (0 <=? cS l) && (0 <=? cW l - 2 * k1 + 2 * k2) && (0 <=? c0 l).
 Definition lin_le (a b : lin) : bool := lin_nonneg (lsub b a).
 
 (* ------------------------------------------------------------------ max-plus forms *)
